@@ -60,8 +60,15 @@ impl Spawner for PoolSpawner {
         if self.known_ips.len() < self.config.count - self.current_sources.len() {
             match self.config.addr.lookup_host().await {
                 Ok(addresses) => {
-                    // add the addresses looked up to our list of known ips
-                    self.known_ips.append(&mut addresses.collect());
+                    // add the addresses looked up to our list of known ips, skipping
+                    // those we already know about (the resolver may repeat an address,
+                    // and a new answer may overlap with addresses left over from a
+                    // previous one), so that no address can be handed out twice
+                    for addr in addresses {
+                        if !self.known_ips.contains(&addr) {
+                            self.known_ips.push(addr);
+                        }
+                    }
                     // remove known ips that we are already connected to or that we want to ignore
                     self.known_ips.retain(|ip| {
                         !self.current_sources.iter().any(|p| p.addr == *ip)
